@@ -1246,6 +1246,79 @@ def rule_nfa_mode(rep, crate):
                 rep.viol(rid, 'config-utf8', 'graph::Config is built as %s, expected utf8_mode = parser.utf8_mode.map(value).unwrap_or(true)' % cd[:200], loc(gen, t['line']))
 
 
+def rule_late_accept_removal(rep, crate, rid_name='M-C02g'):
+    """A late accept may be dropped only if EVERY predecessor already records the same leaf early."""
+    rid = rep.rule(rid_name, 'late accepts are only removed when redundant: in Graph::new every store of None into state_type.accept lies on the Some(leaf) edge of the state\'s own accept and is guarded by a predicate that is universal over the state\'s predecessors (`backward`) and compares each predecessor\'s `early` with Some(leaf) (accepted forms: all(|b| early == Some(leaf)) on its true edge, any(|b| early != Some(leaf)) on its false edge)', floor=1)
+    fn = crate.fns.get('graph::Graph::new')
+    if not rep.anchor(rid, 'fn Graph::new', fn is not None):
+        return
+    from mirlib import stores_to_field, controlling_switches, bool_edges
+    stores = []
+    for bi, si, st in stores_to_field(fn, 'accept'):
+        rhs = st['rhs']
+        d = desc(fn, rhs['a']) if rhs['rv'] == 'use' else ''
+        if 'Option::None' in d:
+            stores.append((bi, si, st))
+    if not rep.anchor(rid, 'store of None into state_type.accept in Graph::new', bool(stores)):
+        return
+    for bi, si, st in stores:
+        rep.inst(rid, 'late-removal:bb%d' % bi)
+        guard = None
+        for sb in controlling_switches(fn, bi):
+            c = cond_of_switch(fn, sb)
+            if c and c['root'][0] == 'call' and re.search(r'Iterator>::(all|any)$', fn.callee_name(c['root'][2])):
+                guard = (sb, c)
+        if guard is None:
+            rep.viol(rid, 'late-removal:unguarded', 'state_type.accept is cleared without a quantified test over the predecessors: the accepted forms are all(..)/any(..) over `backward`', loc(fn, st['line']))
+            continue
+        sb, c = guard
+        call = c['root'][2]
+        quant = re.search(r'Iterator>::(all|any)$', fn.callee_name(call)).group(1)
+        te = (sb, c['t'])
+        fe = (sb, c['f'])
+        on_true = fn.edge_dominates(te, bi)
+        on_false = fn.edge_dominates(fe, bi)
+        recv = fn.slice(call['args'][0])
+        if 'backward' not in recv.field_names():
+            rep.viol(rid, 'late-removal:not-predecessors', 'the quantified test does not range over the predecessors (`backward`) of the state', loc(fn, call['line']))
+        clo = desc(fn, call['args'][1])
+        m = re.search(r'closure:([^{]*\{closure#\d+\})', clo) or re.search(r'(graph::Graph::new::\{closure#\d+\})', clo)
+        cf = crate.fns.get(m.group(1)) if m else None
+        if cf is None:
+            rep.viol(rid, 'late-removal:predicate-unknown', 'the predicate handed to %s() is not a closure of Graph::new (%s)' % (quant, clo[:80]), loc(fn, call['line']))
+            continue
+        # the predicate: eq / ne between a predecessor's `early` and Some(captured leaf)
+        rets = [t for b, t in cf.calls() if re.search(r'PartialEq>?::(eq|ne)$', cf.callee_name(t))]
+        nots = [1 for _b, _s, x in cf.stmts() if x['rhs']['rv'] == 'un' and x['rhs'].get('uop') == 'Not']
+        if len(rets) != 1 or any(cf.blocks[b]['term']['t'] == 'switch' for b in cf.live_blocks()):
+            rep.viol(rid, 'late-removal:predicate-shape', 'the predicate of the late-accept removal is not a single comparison', loc(cf))
+            continue
+        t = rets[0]
+        rel = re.search(r'(eq|ne)$', cf.callee_name(t)).group(1)
+        positive = (rel == 'eq') ^ (len(nots) % 2 == 1)
+        sides = [cf.slice(a) for a in t['args']]
+        has_early = any('early' in x.field_names() for x in sides)
+        has_leaf = any('Option::Some' in desc(cf, a) or any('Some' in str(v) for v in x.aggs) for x, a in zip(sides, t['args']))
+        if not has_early:
+            rep.viol(rid, 'late-removal:not-early', 'the predicate does not compare the predecessor\'s `early` match', loc(cf))
+        if not has_leaf:
+            rep.viol(rid, 'late-removal:not-leaf', 'the predicate does not compare with Some(leaf)', loc(cf))
+        ok = (quant == 'all' and positive and on_true and not on_false) or (quant == 'any' and not positive and on_false and not on_true)
+        if not ok:
+            rep.viol(rid, 'late-removal:not-universal', 'the late accept is cleared when %s(|pred| pred.early %s Some(leaf)) is %s: that is not "every predecessor already records this leaf early", so a state also entered from a predecessor that has not recorded the match loses the only place where it would be recorded (and is then pruned as a dead end)' % (quant, '==' if positive else '!=', 'true' if on_true else 'false'), loc(fn, call['line']))
+        # the leaf compared is the state's own accept: the store lies on the Some edge of a switch on discr(accept)
+        own = False
+        for sb2 in controlling_switches(fn, bi):
+            c2 = cond_of_switch(fn, sb2)
+            if c2 and 'accept' in str(c2.get('root')):
+                own = True
+        if not own:
+            dsw = [sb2 for sb2 in controlling_switches(fn, bi) if 'accept' in desc(fn, fn.blocks[sb2]['term']['discr'])]
+            own = bool(dsw)
+        if not own:
+            rep.viol(rid, 'late-removal:not-own-accept', 'the store is not conditioned on the state\'s own late accept', loc(fn, st['line']))
+
+
 # --------------------------------------------------------------------------------------------
 # positive controls on fixtures/mir-cg (a frozen copy of logos-codegen/src with seeded defects)
 # --------------------------------------------------------------------------------------------
